@@ -12,7 +12,7 @@ ID = 'C17'
 TECHNIQUE = ('table agreement (TAB) over the switch tables of Buffer.c read with a small C statement parser (fall-through chains followed), '
              'reference comparison with the running interpreter\'s struct module, writer/reader agreement of type-group letters '
              '(Buffer.py -> Buffer.c / MemoryView.pyx), abstract evaluation of cursor-loop conditions at NUL and a path-sensitive progress check, '
-             'guard presence in the two acquisition entry points')
+             'guard presence in the two acquisition entry points; decision table of the byte-order prefix arms by symbolic execution over prefix x host layout (rules/sC17.py)')
 DECIDES = ('(TAB) the five __Pyx_BufFmt_TypeCharTo* tables handle the same set of format characters, DescribeTypeChar names all of them, and every character '
            '__Pyx_BufFmt_CheckString stores as a type character is in that set; (REF) TypeCharToStandardSize equals struct.calcsize("="+c) (complex = 2x) and '
            'TypeCharToGroup classifies signed/unsigned/float characters as the struct module does; the characters allowed after "Z" are exactly the ones '
@@ -22,7 +22,9 @@ DECIDES = ('(TAB) the five __Pyx_BufFmt_TypeCharTo* tables handle the same set o
            '__Pyx_TypeInfoToFormat / format_from_typeinfo, and every format character __Pyx_TypeInfoToFormat emits is accepted by the checker with the '
            'same group and size; (SCAN) every cursor loop of the format scanner is false at NUL, no loop of the scanner has a back edge (`continue` / end of body) reachable on a path '
            'without any state change (exact non-termination witness), the main switch has a returning NUL arm; (VAL) each function that calls __Pyx_BufFmt_CheckString compares ndim and itemsize with the declared '
-           'type and fails on a rejected format, after initialising the context with the same dtype.')
+           'type and fails on a rejected format, after initialising the context with the same dtype; (ORDER) for each of the prefixes @ = < > ! ^ and both host byte orders '
+           '(the value of __Pyx_Is_Little_Endian() is obtained by evaluating its type-punning probe under each memory layout) the prefix arm of __Pyx_BufFmt_CheckString '
+           'accepts exactly the formats in host order and stores a pack mode that __Pyx_BufFmt_ProcessTypeChunk reads back as the size/alignment mode the struct module / PEP 3118 define.')
 NOT_DECIDED = ('the format grammar itself (repeat counts, pooling, padding/offset arithmetic of __Pyx_BufFmt_ProcessTypeChunk, nested T{} records, '
                'byte-order handling), stride/contiguity checks (__pyx_check_strides, __pyx_verify_contig), and that acquired elements read as struct.unpack '
                'would; native sizes are compared structurally, not numerically.')
@@ -54,6 +56,13 @@ MUTATIONS = [
     ('Cython/Utility/MemoryView_C.c', "__Pyx_ValidateAndInit_memviewslice: itemsize guard `!=` -> `<`", 'C17-VAL'),
     ('Cython/Utility/MemoryView_C.c', "__Pyx_ValidateAndInit_memviewslice: `if (unlikely(!__Pyx_BufFmt_CheckString(...))) goto fail;` -> call without test", 'C17-VAL'),
     ('Cython/Utility/MemoryView_C.c', "__Pyx_ValidateAndInit_memviewslice: __Pyx_BufFmt_Init(&ctx, stack, memview->typeinfo)", 'C17-VAL'),
+    # C17-ORDER (rules/sC17.py), tried on /tmp/strengthen/G4/scr; seed C17a (merged guard `(*ts == '>') == __Pyx_Is_Little_Endian()`) fires prefix:!:little-host / :big-host
+    ('Cython/Utility/Buffer.c', "CheckString: drop the `case '!':` label", 'C17-ORDER ...prefix:!'),
+    ('Cython/Utility/Buffer.c', "CheckString '<' arm: `if (!__Pyx_Is_Little_Endian())` -> `if (__Pyx_Is_Little_Endian())`", 'C17-ORDER ...prefix:<:little-host, :big-host'),
+    ('Cython/Utility/Buffer.c', "CheckString '>'/'!' arm: `ctx->new_packmode = '='` -> `'@'` (native sizes + alignment for explicit byte order)", 'C17-ORDER ...prefix:>:mode, prefix:!:mode'),
+    ('Cython/Utility/ModuleSetupCode.c', "__Pyx_Is_Little_Endian: `return S.u8[0] == 4` -> `== 1` (inverted probe)", 'C17-ORDER ...__Pyx_Is_Little_Endian:probe (+ 6 prefix rows)'),
+    ('Cython/Utility/Buffer.c', "ProcessTypeChunk: native-size test `== '@' || == '^'` -> `== '@' || == '='`", 'C17-ORDER ...prefix:=:mode, <, >, !, ^'),
+    ('Cython/Utility/Buffer.c', "CheckString '='/'@'/'^' arm: `ctx->new_packmode = *ts++` -> `= '@'; ts++`", 'C17-ORDER ...prefix:=:mode, prefix:^:mode'),
     # tried, NOT caught (no exact rule covers them; recorded for honesty)
     ('Cython/Utility/Buffer.c', "CheckString 'x' arm: drop `++ts` (other state changes on the path, so non-termination is not provable structurally)", 'missed'),
     ('Cython/Utility/Buffer.c', "__Pyx_BufFmt_Init: `typegroup == 'S'` -> 'T' (ProcessTypeChunk still tests 'S')", 'missed'),
@@ -62,6 +71,10 @@ MUTATIONS = [
     ('Cython/Utility/Buffer.c', "TypeCharToGroup: split the `case 'b' ... 'p'` arm into two arms both returning 'I'", None),
     ('Cython/Compiler/Buffer.py', "rename local `typegroup` to `tgroup` consistently", None),
     ('Cython/Utility/Buffer.c', "braces + comment around `goto fail` of the CheckString guard; braces around the body of the ':' loop", None),
+    ('Cython/Utility/Buffer.c', "merge the '<' and '>'/'!' arms CORRECTLY: `if ((*ts == '<') != (__Pyx_Is_Little_Endian() != 0)) {error}` (C17-ORDER silent)", None),
+    ('Cython/Utility/Buffer.c', "'>'/'!' arm as if/else: `if (__Pyx_Is_Little_Endian() == 0) { ts++; mode = '='; } else { error; return NULL; } break;` (C17-ORDER silent)", None),
+    ('Cython/Utility/ModuleSetupCode.c', "__Pyx_Is_Little_Endian: `return S.u8[3] == 0x01` (same probe read from the other end; C17-ORDER silent)", None),
+    ('Cython/Utility/Buffer.c', "ProcessTypeChunk: De Morgan `!(enc_packmode != '@' && enc_packmode != '^')` (C17-ORDER silent)", None),
     ('Cython/Utility/Buffer.c', "plausible fixes of the three findings (case 'O' in TypeInfoToFormat, `++ts; continue;`, `*ts && *ts != ':'` + error) -> C17 ok", None),
 ]
 
@@ -758,4 +771,6 @@ def run(ctx):
     rules.append(rule_val(ctx))
     from ..rules import dims
     rules.append(dims.rule_dims(ctx))
+    from ..rules import sC17
+    rules.append(sC17.rule_order(ctx, _func))
     return rules
